@@ -1,20 +1,16 @@
 """C04 - pipelined requests: in order, exactly once, never mixed, under every schedule."""
-from sim.harness import Simulation
-from sim.shims import NetConfig
 from sim.runner import RunResult
-from models.r2_response import parse_stream
-from . import common
-from .common import ScriptedApp, build_request, token_body
+from . import common, pipeline
 
 PROPERTY = "C04"
 LEVEL = "exploration"
 BUDGET = {"quick": 40, "thorough": 600}
 EVIDENCE = {
     "rule": "each run = 1-2 connections with pipelines of 1-8 requests (bodies, chunked, Expect, "
-            "Connection: close drawn per request), 1-3 workers, lookahead 0-2, seeded partial sends / "
+            "Connection: close, HTTP/1.0 keep-alive drawn per request), 1-3 workers, lookahead 0-2, seeded partial sends / "
             "short reads, seeded scheduler arm (run-to-block, random walk over sync points or source "
             "lines, targeted delay); distinct = distinct history digest; non-trivial = some connection "
-            "carried >= 2 requests and >= 1 context switch happened while an application call was in progress",
+            "carried >= 2 requests and > 4 context switches happened",
     "real": common.REAL, "stub": common.STUB,
     "assumptions": [
         "pre-emption granularity is lock/socket/pipe/clock operations plus (in traced runs) source lines of channel/task/server/wasyncore/trigger/buffers; C-level operations are atomic as under the GIL",
@@ -22,192 +18,15 @@ EVIDENCE = {
         "the application always declares an exact Content-Length, so every response keeps the connection open unless the request asked to close",
     ],
 }
+OPTS = {"p_v10": 0.08}
 
 
-def gen_scenario(W, tier):
-    sc = {}
-    sc["threads"] = 1 + W.draw(3)
-    sc["lookahead"] = W.choice([0, 1, 2])
-    sc["recv_bytes"] = W.choice([8192, 64, 7, 1], p0=0.5)
-    sc["send_bytes"] = W.choice([18000, 1000, 9, 1])
-    sc["sendbuf_len"] = W.choice([8192, 512, 64, 8])
-    sc["sndbuf_cap"] = W.choice([65536, 4096, 300, 40])
-    sc["outbuf_overflow"] = W.choice([1048576, 8192, 100, 1])
-    sc["inbuf_overflow"] = W.choice([524288, 8192, 10])
-    sc["watermark"] = W.choice([16777216, 20000])
-    sc["p_partial"] = W.choice([0.0, 0.3, 0.8])
-    sc["p_short"] = W.choice([0.0, 0.3])
-    sc["use_poll"] = W.chance(0.3)
-    sc["expect_ok"] = W.chance(0.35) and not __import__("os").environ.get("NOEXPECT")
-    nconn = 1 + W.draw(2, p0=0.7)
-    conns = []
-    for cid in range(nconn):
-        nreq = 1 + W.draw(8)
-        reqs = []
-        for r in range(nreq):
-            kind = W.weighted([5, 2, 2])  # GET / POST-CL / POST-chunked
-            q = {"kind": kind}
-            u = min(sc["sendbuf_len"], sc["sndbuf_cap"])
-            q["resp_size"] = W.choice([5, 0, u - 1, u + 3, 3 * u + 1, 12 * u, 40 * u], p0=0.3)
-            q["resp_chunks"] = 1 + W.draw(3)
-            q["app_sleep"] = W.choice([0, 0.0001, 0.01], p0=0.6)
-            q["gen"] = W.chance(0.3)
-            if kind:
-                rb = sc["recv_bytes"]
-                q["body_size"] = W.choice([3, 0, 50, rb + 1, 5 * rb + 2, min(9000, 30 * rb)], p0=0.4)
-                q["expect"] = sc["expect_ok"] and W.chance(0.4)
-            q["close"] = W.chance(0.06)
-            reqs.append(q)
-        cuts = common.cut_points(W, 400 * nreq, 3)
-        conns.append({"reqs": reqs, "cuts": cuts, "seg_delay": W.choice([0.0, 0.0005, 0.02]),
-                      "reader": W.weighted([6, 2]), "start": W.choice([0.0, 0.001])})
-    sc["conns"] = conns
-    sc["sched"], sc["trace"] = common.draw_sched(W)
-    return sc
-
-
-def run_one(tapes, tier):
-    W = tapes.W
-    sc = gen_scenario(W, tier)
+def run_one(tapes, tier, scenario=None):
+    sc = scenario if scenario is not None else pipeline.gen_scenario(tapes.W, OPTS)
     res = RunResult()
-    knobs = dict(
-        threads=sc["threads"], channel_request_lookahead=sc["lookahead"], recv_bytes=sc["recv_bytes"],
-        send_bytes=sc["send_bytes"], outbuf_overflow=sc["outbuf_overflow"],
-        inbuf_overflow=sc["inbuf_overflow"], outbuf_high_watermark=sc["watermark"],
-        asyncore_use_poll=sc["use_poll"],
-    )
-    net = NetConfig(sendbuf_len=sc["sendbuf_len"], sndbuf_cap=sc["sndbuf_cap"],
-                    p_partial_send=sc["p_partial"], p_short_read=sc["p_short"])
-    sim = Simulation(tapes, knobs=knobs, net=net, sched=sc["sched"], trace=sc["trace"],
-                     horizon=60.0, stop_at_idle=True)
-    scripts = {}
-    expected = {}
-    streams = {}
-    for cid, c in enumerate(sc["conns"]):
-        exp = []
-        stream = b""
-        for r, q in enumerate(c["reqs"]):
-            body = token_body(cid, r, q["resp_size"])
-            n = q["resp_chunks"]
-            step = max(1, len(body) // n)
-            chunks = common.split_chunks(body, [step * i for i in range(1, n)])
-            script = {"chunks": chunks, "cl": len(body), "kind": "gen" if q["gen"] or q["app_sleep"] else "list"}
-            if q["app_sleep"]:
-                script["sleeps"] = {0: q["app_sleep"]}
-            path = "/c%d/r%d" % (cid, r)
-            hdrs = [("Host", "sim")]
-            method = "GET"
-            rb = None
-            if q["kind"]:
-                method = "POST"
-                rb = token_body(cid + 10, r, q["body_size"])
-                script["read_input"] = True
-                if q.get("expect"):
-                    hdrs.append(("Expect", "100-continue"))
-            if q["close"]:
-                hdrs.append(("Connection", "close"))
-            scripts[path] = script
-            stream += build_request(method, path, "1.1", hdrs, rb, chunked=(q["kind"] == 2),
-                                    chunk_sizes=[max(1, len(rb) // 2)] if rb else None)
-            exp.append({"path": path, "method": method, "body": body, "reqbody": rb or b"",
-                        "close": q["close"]})
-            if q["close"]:
-                break
-        expected[cid] = exp
-        streams[cid] = stream
-    app = ScriptedApp(sim, scripts)
-    sim.build(app)
-    for cid, c in enumerate(sc["conns"]):
-        stream = streams[cid]
-        cuts = [x for x in c["cuts"] if x < len(stream)]
-        segs = common.split_chunks(stream, cuts)
-        steps = []
-        if c["reader"] == 1:
-            steps.append(("mode", "slow", max(7, sc["sndbuf_cap"] // 2) + cid, 0.0003))
-        for i, s in enumerate(segs):
-            if i and c["seg_delay"]:
-                steps.append(("sleep", c["seg_delay"]))
-            steps.append(("send", s))
-        sim.add_client(steps, cid=cid, start=c["start"])
-
-    k = sim.k
-    state = {"switch_in_app": 0}
-
-    def all_done():
-        for cid, exp in expected.items():
-            s = sim.conns.get(cid)
-            if s is None:
-                return False
-            rs, probs = parse_stream(s.wire, [e["method"] for e in exp], s.closed)
-            finals = [r for r in rs if not r.interim]
-            if probs or len(finals) < len(exp) or not all(r.complete for r in finals):
-                return False
-        return True
-
-    def on_idle(k, quiescent):
-        if all_done():
-            return "stop"
-        return "continue"
-
-    k.on_idle = on_idle
-    base_sw = [0]
-
-    sim.run()
-
-    # ---------------------------------------------------------------- oracle
-    for cid, exp in expected.items():
-        s = sim.conns.get(cid)
-        calls = common.calls_of(app, cid)
-        # exactly once, in order
-        paths = [c["path"] for c in calls]
-        want = [e["path"] for e in exp]
-        if paths != want:
-            if len(paths) > len(set(paths)):
-                res.v("exactly_once", "duplicate_call", "conn %d: application calls %r, expected %r" % (cid, paths, want))
-            elif paths == want[:len(paths)]:
-                res.v("all_served", "missing_call", "conn %d: application calls %r, expected %r (end=%s)" % (cid, paths, want, k.end_reason))
-            else:
-                res.v("order", "wrong_order", "conn %d: application calls %r, expected %r" % (cid, paths, want))
-        for c, e in zip(calls, exp):
-            if e["method"] == "POST" and c["input"] != e["reqbody"]:
-                res.v("request_body", "body_mismatch", "conn %d req %d: wsgi.input %r... != sent %r..." % (
-                    cid, c["ridx"], (c["input"] or b"")[:40], e["reqbody"][:40]))
-        if s is None:
-            continue
-        rs, probs = parse_stream(s.wire, [e["method"] for e in exp], s.closed)
-        finals = [r for r in rs if not r.interim]
-        if probs:
-            res.v("wire", "unparseable:" + probs[0][0], "conn %d: client-side parser: %r; wire[%d] tail %r" % (
-                cid, probs, len(s.wire), bytes(s.wire[-80:])))
-        for i, (r, e) in enumerate(zip(finals, exp)):
-            if r.status != 200 or r.body != e["body"]:
-                res.v("wire", "wrong_body", "conn %d response %d: status %s body[%d] %r..., expected body[%d] %r..." % (
-                    cid, i, r.status, len(r.body), r.body[:50], len(e["body"]), e["body"][:50]))
-                break
-        if not probs and len(finals) != len(exp):
-            res.v("wire", "response_count", "conn %d: %d final responses for %d requests (end=%s)" % (
-                cid, len(finals), len(exp), k.end_reason))
-    if app.overlap:
-        res.v("one_at_a_time", "overlap", "two application calls in progress on one connection: %r" % (app.overlap[:3],))
-    lp = common.log_problems(sim)
-    if lp:
-        res.v("escaped_exception", lp[0][1].split(" ")[0][:20], "server logged: %s\n%s" % (lp[0][1], lp[0][2]))
-    for t in sim.final_threads:
-        if t[3] is not None:
-            res.v("thread_died", t[0], "thread %s died with %s" % (t[0], t[3]))
-    if k.end_reason in ("step_cap",):
-        res.harness_error = "step cap reached"
-    if k.harness_error:
-        res.harness_error = k.harness_error
-
-    res.digest = k.digest()
-    res.stats = common.base_stats(sim)
-    res.interleaving = k.switch_hash.hexdigest()
-    res.nontrivial = any(len(e) >= 2 for e in expected.values()) and k.switches > 4
-    res.sample = {
-        "knobs": {kk: sc[kk] for kk in ("threads", "lookahead", "recv_bytes", "send_bytes", "sendbuf_len", "sndbuf_cap", "p_partial", "use_poll")},
-        "sched": sc["sched"], "trace": sc["trace"],
-        "pipelines": [[("%s%s%s" % (e["method"], " close" if e["close"] else "", " body=%d" % len(e["reqbody"]) if e["reqbody"] else ""), len(e["body"])) for e in exp] for exp in expected.values()],
-        "switches": k.switches, "steps": k.steps, "end": k.end_reason,
-    }
-    return res
+    res.scenario = sc
+    ctx = pipeline.build(tapes, sc, horizon=60.0)
+    pipeline.install_idle_stop(ctx)
+    ctx.sim.run()
+    pipeline.check_pipeline(ctx, res)
+    return pipeline.finish(ctx, res)
